@@ -12,7 +12,7 @@ from fractions import Fraction
 from vlib.mc import enum as E
 
 PROPERTY = 'C10'
-LEVEL = 'exploration'
+LEVEL = 'model_checking'
 ENGINE = 'C'
 TECHNIQUE = ('stateless bounded model checking: complete enumeration of the product sign x magnitude x '
              'prefix x unit x unit system x return_int against exact Fraction '
